@@ -359,3 +359,107 @@ func TestVerifC10CoreHist(t *testing.T) {
 	}
 	rec(nil)
 }
+
+// ---- A: the same crash / fault enumeration with an auto-unseal ("stored key") seal --
+//
+// The barrier root key is kept in storage wrapped by an external wrapper; there
+// are no unseal shares.  After a crash at any durable write, or a storage error
+// at any operation, of an encryption-key rotation or a root-key rotation, a
+// restarted node must unseal from its stored keys and read every earlier entry.
+
+func TestVerifC10CoreAuto(t *testing.T) {
+	res := vout.New("C10", "coreauto")
+	defer func() {
+		if err := res.Write(); err != nil {
+			t.Fatal(err)
+		}
+	}()
+	if vout.ReplayPath() != "" {
+		return
+	}
+	s0 := Build(t, Options{AutoSeal: true})
+	s0.Mount("rec/", "rec")
+	s0.Must(s0.Req(s0.Root, logical.UpdateOperation, "rec/kv/a", map[string]interface{}{"value": "EARLIER"}))
+	img := s0.Image()
+	s0.Close()
+	count := 0
+	check := func(label string, snap map[string][]byte, art map[string]interface{}, later bool) {
+		sx, err := BootSealed(t, snap, img)
+		if err != nil {
+			t.Fatalf("harness: %v", err)
+		}
+		defer sx.Close()
+		ok, uerr := sx.TryUnseal(nil)
+		if !ok {
+			res.Violate(fmt.Sprintf("c10:coreauto:%v:%s:unsealable", art["op"], label), fmt.Sprintf("%v: a restarted node does not unseal from its stored keys: %v", art, uerr), art)
+			res.Distinct("nontrivial", fmt.Sprintf("A|%v|unsealable", art["op"]))
+			return
+		}
+		if resp, err := sx.Req(sx.Root, logical.ReadOperation, "rec/kv/a", nil); !OK(resp, err) || resp == nil || resp.Data["value"] != "EARLIER" {
+			res.Violate("c10:coreauto:"+label+":entry-lost", fmt.Sprintf("%v: unsealed, but the earlier entry does not read back (%s)", art, ErrText(resp, err)), art)
+		}
+		if later {
+			if resp, err := sx.Req(sx.Root, logical.ReadOperation, "rec/kv/later", nil); !OK(resp, err) || resp == nil || resp.Data["value"] != "LATER" {
+				res.Violate("c10:coreauto:"+label+":later-entry-lost", fmt.Sprintf("%v: an entry acknowledged after the operation does not read back after a restart (%s)", art, ErrText(resp, err)), art)
+			}
+		}
+		res.Distinct("nontrivial", fmt.Sprintf("A|%v|%s|ok", art["op"], label))
+	}
+	for _, what := range []string{"rotate", "rotate-root"} {
+		sP := Boot(t, img)
+		sP.Phys.ResetMutations()
+		sP.Phys.FailAt("call", 1<<30)
+		sP.Phys.SetTag("call")
+		_, err := c10Act(sP, what)
+		sP.Phys.SetTag("")
+		nmut, nops := sP.Phys.Mutations(), sP.Phys.TagCount("call")
+		snap0 := sP.Phys.Snapshot()
+		sP.Close()
+		if err != nil {
+			res.Note("auto seal: fault-free %s is refused: %v", what, err)
+			res.Distinct("nontrivial", "A|"+what+"|refused")
+			continue
+		}
+		check("completed", snap0, map[string]interface{}{"op": what, "j": 0}, false)
+		res.Max("durable_mutations", int64(nmut))
+		for j := 1; j <= nmut; j++ {
+			count++
+			if !vout.Mine(count) {
+				continue
+			}
+			s := Boot(t, img)
+			s.Phys.CrashAfter(j)
+			_, _ = c10Act(s, what)
+			crashed, snap := s.Phys.Crashed()
+			s.Close()
+			if !crashed {
+				continue
+			}
+			res.Add("executions", 1)
+			res.Add("crash_runs", 1)
+			check(fmt.Sprintf("crash-after-write-%d-of-%d", j, nmut), snap, map[string]interface{}{"op": what, "crash_after_write": j, "of": nmut}, false)
+		}
+		for k := 1; k <= nops; k++ {
+			count++
+			if !vout.Mine(count) {
+				continue
+			}
+			s := Boot(t, img)
+			s.Phys.FailAt("call", k)
+			s.Phys.SetTag("call")
+			_, aerr := c10Act(s, what)
+			s.Phys.SetTag("")
+			fop := "none"
+			if f := s.Phys.Failed(); f != nil {
+				fop = f.Kind + "(" + f.Key + ")"
+			}
+			later := OK(s.Req(s.Root, logical.UpdateOperation, "rec/kv/later", map[string]interface{}{"value": "LATER"}))
+			snap := s.Phys.Snapshot()
+			s.Close()
+			res.Add("executions", 1)
+			res.Add("fault_runs", 1)
+			check("fault:"+fop, snap, map[string]interface{}{"op": what, "fault_at_op": k, "failed_op": fop, "call_error": fmt.Sprint(aerr)}, later)
+		}
+		res.Add("states", 1)
+	}
+}
